@@ -1,7 +1,8 @@
 ------------------------------- MODULE MC_Msg -------------------------------
-(* C01, C10 (also C12's "cannot speak into it"): PRIVMSG / NOTICE with every target form, *)
-(* from members of every standing and from an outsider, under +n +m +s, bans, exceptions,  *)
-(* away recipients, after membership, rank and nick changes                                *)
+(* C01, C10 (also C12's "cannot speak into it"): PRIVMSG / NOTICE with every target form, from *)
+(* members of every standing and from an outsider, in EVERY COMBINATION of +n +m +s, voice and   *)
+(* higher ranks, ban and exception masks relative to the senders, an away recipient, a renamed   *)
+(* recipient and a departed member (the combinations are the initial states)                     *)
 EXTENDS IrcModel
 A == "127.0.0.1"
 B == "127.0.0.2"
@@ -11,22 +12,26 @@ Cfg == BaseCfg
 Pre == Reg(A, "alice", "u1") \o Reg(B, "bob", "u2") \o Reg(C, "carol", "u3") \o Reg(D, "dave", "u4")
        \o << St(A, "JOIN", <<<<"#one">>>>), St(B, "JOIN", <<<<"#one">>>>), St(D, "JOIN", <<<<"#one">>>>) >>
 M(c, grp) == St(c, "MODE", <<<<"#one">>, grp>>)
-Setup ==
-    { M(A, <<"+n">>), M(A, <<"+m">>), M(A, <<"+s">>), M(A, <<"-n">>),
-      M(A, <<"+v", "bob">>), M(A, <<"+h", "bob">>), M(A, <<"+o", "dave">>), M(A, <<"+a", "dave">>),
-      M(A, <<"+b", "dave">>), M(A, <<"+b", "*!*@127.0.0.3">>), M(A, <<"+e", "dave!*@127.0.0.4">>),
-      St(B, "AWAY", <<<<"gone: fishing">>>>), St(B, "NICK", <<<<"bobby">>>>),
-      St(D, "PART", <<<<"#one">>>>), St(A, "KICK", <<<<"#one">>, <<"bob">>>>), St(B, "QUIT", <<>>) }
+Toggles == << M(A, <<"+n">>), M(A, <<"+m">>), M(A, <<"+s">>),
+              M(A, <<"+v", "bob">>), M(A, <<"+o", "dave">>),
+              M(A, <<"+b", "dave">>), M(A, <<"+b", "*!*@127.0.0.2">>), M(A, <<"+e", "bob!*@*">>),
+              St(B, "AWAY", <<<<"gone: fishing">>>>) >>
+Later == { St(B, "NICK", <<<<"bobby">>>>), St(A, "KICK", <<<<"#one">>, <<"bob">>>>), St(B, "QUIT", <<>>), M(A, <<"+a", "bob">>), M(A, <<"+h", "bob">>),
+           St(D, "PART", <<<<"#one">>>>) }
 Targets == { <<"#one">>, <<"@#one">>, <<"+#one">>, <<"~@#one">>, <<"%+#one">>, <<"bob">>, <<"bobby">>, <<"alice">>,
-             <<"nobody">>, <<"#one", "bob", "#one">>, <<"#none">>, <<"dave", "@#one", "#none">> }
-Msgs == { St(c, v, <<t, <<x>>>>) : c \in {A, B, C, D}, v \in {"PRIVMSG", "NOTICE"}, t \in Targets, x \in {"hi: there"} }
-IsMsg(st) == st.cmd.verb \in {"PRIVMSG", "NOTICE"}
-Enabled(st) == st.c \in DOMAIN S.conns
-Steps == {st \in Setup \cup Msgs : Enabled(st)}
-Init == InitWith(Cfg, Pre)
+             <<"nobody">>, <<"#one", "bob", "#one">>, <<"#none">>, <<"dave", "@#one", "#none">>, <<"bob", "#one", "bob">> }
+NTargets == { <<"#one">>, <<"@#one">>, <<"bob">>, <<"nobody">>, <<"#none">> }
+Msgs == { St(c, "PRIVMSG", <<t, <<"hi: there">>>>) : c \in {A, B, C, D}, t \in Targets }
+        \cup { St(c, "NOTICE", <<t, <<"hi: there">>>>) : c \in {A, B, C, D}, t \in NTargets }
+(* membership and nick changes before the send only from the untoggled start state *)
+Enabled(st) == st.c \in DOMAIN S.conns /\ (st \in Later => hist = Pre)
+Steps == {st \in Later \cup Msgs : Enabled(st)}
+Init == InitWithToggles(Cfg, Pre, Toggles)
 Next == NextWith(Steps)
 Spec == Init /\ [][Next]_vars
-Depth == 3
-Constraint == Len(hist) <= Len(Pre) + Depth
+(* one message after the combination, or one further change and then a message *)
+Constraint == Len(SelectSeq(hist, LAMBDA st : st \in Later \cup Msgs)) <= 2
+             /\ (Len(hist) > 0 /\ hist[Len(hist)] \in Msgs => TRUE)
+             /\ Len(SelectSeq(hist, LAMBDA st : st \in Msgs)) <= 1
 ASSUME PrintT(<<"CFG", ToJson(CfgJson(Cfg))>>)
 =============================================================================
